@@ -21,6 +21,10 @@ def main():
     pid = a.pid.upper()
     ctx = common.Ctx(pid, a.tier, seed, a.replay)
     mod = importlib.import_module(pid.lower())
+    # a path-less Script takes the current directory as its project (searched by get_references,
+    # rewritten by refactorings): never let that be /verif or /repo
+    os.makedirs(os.path.join(ctx.tmp, 'cwd'), exist_ok=True)
+    os.chdir(os.path.join(ctx.tmp, 'cwd'))
     try:
         if a.replay:
             rc = mod.replay(ctx, a.replay)
